@@ -2,6 +2,7 @@ package main
 
 import (
 	"fmt"
+	"go/token"
 	"go/types"
 	"path/filepath"
 	"sort"
@@ -278,6 +279,8 @@ func (e *Engine) Structural() []*Obligation {
 			}
 			free := nonBlockingCycle(li)
 			switch {
+			case countedLoop(li):
+				add(fmt.Sprintf("termination.loop@%s#%d", e.funcKey(f), li.ordinal), []string{"C13"}, true, e.pos(firstPos(h)), "counted loop: an index stepped by a positive constant towards a bound the loop does not change")
 			case !free:
 				add(fmt.Sprintf("termination.loop@%s#%d", e.funcKey(f), li.ordinal), []string{"C13"}, true, e.pos(firstPos(h)), "every cycle blocks on a channel operation or sleep")
 			case spec != nil && spec.Decreases != nil:
@@ -510,4 +513,67 @@ func unsafeLibraryType(t types.Type, depth int) string {
 		}
 	}
 	return ""
+}
+
+// countedLoop: the loop is left when `i < bound` (or `i <= bound`) fails, i is a phi of the head whose only
+// back-edge values are i + c with a positive constant c, and bound is a constant, or len/cap of a value defined
+// outside the loop, or a value defined outside the loop.
+func countedLoop(li *loopInfo) bool {
+	for _, in := range li.head.Instrs {
+		bo, ok := in.(*ssa.BinOp)
+		if !ok || (bo.Op != token.LSS && bo.Op != token.LEQ) {
+			continue
+		}
+		phi, ok := bo.X.(*ssa.Phi)
+		if !ok || phi.Block() != li.head {
+			continue
+		}
+		// the comparison decides whether the loop goes on
+		used := false
+		if ifi, ok := li.head.Instrs[len(li.head.Instrs)-1].(*ssa.If); ok && ifi.Cond == ssa.Value(bo) {
+			used = true
+		}
+		if !used {
+			continue
+		}
+		// bound does not change in the loop
+		switch y := bo.Y.(type) {
+		case *ssa.Const:
+		case *ssa.Call:
+			b, ok := y.Call.Value.(*ssa.Builtin)
+			if !ok || (b.Name() != "len" && b.Name() != "cap") {
+				continue
+			}
+			if ai, ok := y.Call.Args[0].(ssa.Instruction); ok && li.body[ai.Block()] {
+				continue
+			}
+		default:
+			if yi, ok := bo.Y.(ssa.Instruction); ok && li.body[yi.Block()] {
+				continue
+			}
+		}
+		// every back edge brings i + positive constant
+		okStep := true
+		seen := false
+		for k, p := range li.head.Preds {
+			if !li.body[p] {
+				continue
+			}
+			seen = true
+			add, ok := phi.Edges[k].(*ssa.BinOp)
+			if !ok || add.Op != token.ADD || add.X != ssa.Value(phi) {
+				okStep = false
+				break
+			}
+			c, ok := add.Y.(*ssa.Const)
+			if !ok || c.Value == nil || c.Int64() <= 0 {
+				okStep = false
+				break
+			}
+		}
+		if seen && okStep {
+			return true
+		}
+	}
+	return false
 }
